@@ -20,3 +20,6 @@ func VerifPipesListed(s mangos.Socket) []uint32 { return core.VerifPipesListed(s
 func VerifPipeIDSetNext(next uint32) { core.VerifPipeIDSetNext(next) }
 func VerifPipeIDGet() uint32         { return core.VerifPipeIDGet() }
 func VerifPipeIDFree(id uint32)      { core.VerifPipeIDFree(id) }
+
+// VerifPipeIDNext reads the allocator's counter.
+func VerifPipeIDNext() uint32 { return core.VerifPipeIDNext() }
